@@ -87,6 +87,9 @@ def overlay(draw):
         out['performance_model'] = draw(st.sampled_from(paths['performance_model']))
     if draw(st.integers(0, 5)) == 0:
         out['engine_file'] = draw(st.sampled_from(paths['engine_file']))
+    if draw(st.integers(0, 5)) == 0:
+        # an explicit search path under which every packaged and test file resolves
+        out['path'] = [str(core.TEST_DATA), str(core.REPO / 'src' / 'AEIC' / 'data')]
     return out
 
 
@@ -106,6 +109,8 @@ def _toml(d: dict, prefix: str = '') -> str:
             lines.append(f'{k} = {"true" if v else "false"}')
         elif isinstance(v, (int, float)):
             lines.append(f'{k} = {v}')
+        elif isinstance(v, list):
+            lines.append(f'{k} = [' + ', '.join(json_str(x) for x in v) + ']')
         else:
             lines.append(f'{k} = {json_str(v)}')
     out = '\n'.join(lines) + '\n'
@@ -149,6 +154,8 @@ def flatten_expected(eff: dict) -> dict:
     out[('weather', 'weather_data_dir')] = expected_path(eff['weather']['weather_data_dir'])
     out[('performance_model',)] = expected_path(eff['performance_model'])
     out[('engine_file',)] = expected_path(eff['engine_file'])
+    if eff.get('path'):
+        out[('path',)] = [Path(x).resolve() for x in eff['path']]
     return out
 
 
